@@ -607,6 +607,46 @@ def _install(ch):
         return 1750000000.0
     time.time = no_time
 
+    # ---- evaluation boundary (C08 "buggify"): ExpressionError for chosen (expression text, item id) pairs
+    ef = plan.get('eval_faults')
+    if ef:
+        import ast as _ast
+        import re as _re
+        from tally import expr_parser as _ep
+        pairs = set((e, str(i)) for e, i in ef)
+        texts = set(e for e, _ in pairs)
+        tree_text = {}
+        real_parse = _ep.parse_expression
+
+        def rec_parse(expr):
+            tree = real_parse(expr)
+            if expr in texts:
+                tree_text[id(tree)] = expr
+            return tree
+        _ep.parse_expression = rec_parse
+
+        def item_of_txn(ctx):
+            m = _re.findall(r'r(\d+)', str(getattr(ctx, 'description', '') or ''))
+            return m[-1] if m else ''
+
+        def item_of_merchant(ctx):
+            ts = getattr(ctx, 'transactions', None) or []
+            return str(ts[0].get('merchant', '')) if ts else ''
+
+        def wrap(cls, item_of):
+            real_eval = cls.evaluate
+
+            def evaluate(self, node):
+                if type(node) is _ast.Expression:
+                    t = tree_text.get(id(node))
+                    if t is not None and (t, item_of(self.ctx)) in pairs:
+                        ch.log({'k': 'evalfault', 'expr': t, 'item': item_of(self.ctx)})
+                        raise _ep.ExpressionError('tallysim: injected evaluation failure')
+                return real_eval(self, node)
+            cls.evaluate = evaluate
+        wrap(_ep.TransactionEvaluator, item_of_txn)
+        wrap(_ep.ExpressionEvaluator, item_of_merchant)
+
     # ---- environment
     env = {'NO_COLOR': '1', 'COLUMNS': '80', 'TZ': 'UTC', 'LC_ALL': 'C.UTF-8', 'PATH': '',
            'HOME': '/nonexistent', 'PYTHONHASHSEED': os.environ.get('PYTHONHASHSEED', '0')}
